@@ -173,6 +173,9 @@ class Scenario:
         self._sensor_store = {}
         self._estimate_store = {}
 
+        # Epochs of the steps taken since the last save
+        self._unsaved_epochs: list[tuple[float, str]] = []
+
         # Save initial states to database
         self.saveDatabaseOutput()
 
@@ -218,20 +221,23 @@ class Scenario:
 
     def saveDatabaseOutput(self) -> None:  # noqa: C901
         """Save Truth, Estimate, and Observation data to the output database."""
-        # Grab `TruthEphemeris` for targets & sensors
-        if not self.database.getData(
-            Query(Epoch).filter(
-                Epoch.timestampISO == self.clock.datetime_epoch.isoformat(timespec="microseconds"),
+        # [NOTE]: Rows recorded at steps since the last save (observations, tasks, ...) refer to the epochs of those
+        #   steps, which the clock did not insert if the run goes past the configured span.
+        self._unsaved_epochs.append(
+            (
+                self.clock.julian_date_epoch,
+                self.clock.datetime_epoch.isoformat(timespec="microseconds"),
             ),
-            multi=False,
-        ):
-            self.database.insertData(
-                Epoch(
-                    julian_date=self.clock.julian_date_epoch,
-                    timestampISO=self.clock.datetime_epoch.isoformat(timespec="microseconds"),
-                ),
-            )
+        )
+        for julian_date, timestamp in self._unsaved_epochs:
+            if not self.database.getData(
+                Query(Epoch).filter(Epoch.timestampISO == timestamp),
+                multi=False,
+            ):
+                self.database.insertData(Epoch(julian_date=julian_date, timestampISO=timestamp))
+        self._unsaved_epochs = []
 
+        # Grab `TruthEphemeris` for targets & sensors
         output_data = [tgt.getCurrentEphemeris() for tgt in self.target_agents.values()]
         output_data.extend(sensor.getCurrentEphemeris() for sensor in self.sensor_agents.values())
 
@@ -313,6 +319,12 @@ class Scenario:
         self.logger.debug("TicToc")
         # Tic clock forward, push epoch to DB
         self.clock.ticToc()
+        self._unsaved_epochs.append(
+            (
+                self.clock.julian_date_epoch,
+                self.clock.datetime_epoch.isoformat(timespec="microseconds"),
+            ),
+        )
         # Update Julian date properly
         self.current_julian_date = self.clock.julian_date_epoch
 
